@@ -236,15 +236,19 @@ def widthsEntry (fd : FontDict) (code : Int) : Option Rat :=
     if 0 ≤ i then ws[i.toNat]? else none
   | none => none
 
-/-- The standard-14 metric of the character of `code` (fonts named like one of the standard 14 only). -/
-def std14Metric (T : Tables) (fd : FontDict) (code : Int) : Option Rat :=
+/-- The standard-14 metric of a character string `u` (fonts named like one of the standard 14 only). -/
+def std14MetricOf (T : Tables) (fd : FontDict) (u : Option Text) : Option Rat :=
   if fd.isType3 then none else
-  match getMetrics T.fm (fd.baseFont.getD "unknown"), specUnicode T fd code with
+  match getMetrics T.fm (fd.baseFont.getD "unknown"), u with
   | some m, some [c] =>
     match slookup m c with
     | some w => some (w : Rat)
     | none => none
   | _, _ => none
+
+/-- The standard-14 metric of the character of `code` (fonts named like one of the standard 14 only). -/
+def std14Metric (T : Tables) (fd : FontDict) (code : Int) : Option Rat :=
+  std14MetricOf T fd (specUnicode T fd code)
 
 def missingWidth (fd : FontDict) : Rat :=
   match fd.desc with
@@ -254,14 +258,19 @@ def missingWidth (fd : FontDict) : Rat :=
 /-- Glyph space -> text space: 1/1000, or the horizontal scale of the Type3 font matrix. -/
 def widthScale (fd : FontDict) : Rat := if fd.isType3 then fd.fontMatrix.1 else (1 : Rat) / 1000
 
-/-- The advance reported for a code (font size 1). -/
-def specWidth (T : Tables) (fd : FontDict) (code : Int) : Rat :=
+/-- The advance of a code whose Unicode value is `u`: Widths entry, else standard-14 metric of `u`, else
+MissingWidth; times the scale. -/
+def specWidthOf (T : Tables) (fd : FontDict) (code : Int) (u : Option Text) : Rat :=
   (match widthsEntry fd code with
    | some w => w
    | none =>
-     match std14Metric T fd code with
+     match std14MetricOf T fd u with
      | some w => w
      | none => missingWidth fd) * widthScale fd
+
+/-- The advance reported for a code (font size 1). -/
+def specWidth (T : Tables) (fd : FontDict) (code : Int) : Rat :=
+  specWidthOf T fd code (specUnicode T fd code)
 
 /-- Is the glyph name that the font's encoding gives to `code` in the judged domain of names?
 (Base-table names always are; only Differences / built-in names can fall outside.) -/
@@ -288,6 +297,50 @@ def judgedCode (T : Tables) (fd : FontDict) (code : Int) : Bool :=
     else match tuText (tuDefs es) code with
       | some _ => true
       | none => judgedEncName T fd code
+  | none => judgedEncName T fd code
+
+/-! ### ToUnicode, exactly: pdfminer's documented space / no-break-space rule
+
+`FileUnicodeMap.add_cid2unichr`: "A0 = non-breaking space, some weird fonts can have a collision on a cid here":
+a definition of a code as U+00A0 is ignored while the code's value is U+0020.  So "last definition wins"
+(`tuText`) is exact only for maps without such a pair (`nbspClash`); the exact rule for EVERY map: -/
+
+/-- The value in effect after the definitions of ONE code (most recent first): the most recent one, except
+that a no-break space does not replace a space. -/
+def effective : List Text → Option Text
+  | [] => none
+  | v :: older => if v == [0xA0] && effective older == some [0x20] then some [0x20] else some v
+
+/-- The texts a ToUnicode map defines for `code`, most recent first. -/
+def codeDefs (defs : List (Int × List UInt8)) (code : Int) : List Text :=
+  ((defs.filter (fun d => d.1 == code)).map (fun d => utf16beIgnore d.2)).reverse
+
+def tuTextExact (defs : List (Int × List UInt8)) (code : Int) : Option Text := effective (codeDefs defs code)
+
+/-- `specUnicode` for every ToUnicode map (space / no-break-space rule included). -/
+def specUnicodeX (T : Tables) (fd : FontDict) (code : Int) : Option Text :=
+  match fd.toUnicode with
+  | some es =>
+    match tuTextExact (tuDefs es) code with
+    | some t => some t
+    | none => encodingText T fd code
+  | none => encodingText T fd code
+
+def specTextX (T : Tables) (fd : FontDict) (code : Int) : Text :=
+  match specUnicodeX T fd code with
+  | some t => t
+  | none => specPlaceholder code
+
+def specWidthX (T : Tables) (fd : FontDict) (code : Int) : Rat :=
+  specWidthOf T fd code (specUnicodeX T fd code)
+
+/-- The judged domain without the exclusion of space / no-break-space maps: only the glyph name matters. -/
+def judgedCodeX (T : Tables) (fd : FontDict) (code : Int) : Bool :=
+  match fd.toUnicode with
+  | some es =>
+    match tuTextExact (tuDefs es) code with
+    | some _ => true
+    | none => judgedEncName T fd code
   | none => judgedEncName T fd code
 
 /-! ### Font dictionaries with the raw FontFile stream -/
